@@ -147,11 +147,12 @@ func init() {
 			"one ONCE call site per query; no LIMIT; function errors under ASYNC belong to C10/C19; SPIN completion before return is not required (only 'adds no column')",
 			"ASYNC calls appear as direct select-list items (the README rules out ASYNC inside FROM clauses)",
 		},
-		Floor:         []string{"q.plain", "q.async", "q.spinasync", "q.spin", "q.once", "q.await-async", "star", "where", "nested", "shape.union", "shape.cte", "shape.multidim", "arg.null", "page", "page.empty", "order.async", "distinct.async", "joinop.derived", "joinop.both", "builtin.async", "lat.zero", "lat.yield", "lat.random", "lat.skewed", "lat.straggler", "table.empty", "imm.async", "imm.spin", "imm.spinasync", "imm.harness", "imm.harness-mixedcase"},
+		Floor:         []string{"q.plain", "q.async", "q.spinasync", "q.spin", "q.once", "q.await-async", "star", "where", "nested", "shape.union", "shape.cte", "shape.multidim", "arg.null", "page", "page.empty", "order.async", "distinct.async", "joinop.derived", "joinop.both", "builtin.async", "failwait", "lat.zero", "lat.yield", "lat.random", "lat.skewed", "lat.straggler", "table.empty", "imm.async", "imm.spin", "imm.spinasync", "imm.harness", "imm.harness-mixedcase"},
 		MinNontrivial: 30,
 		Phases: []fw.Phase{
 			{Name: "ledger", N: func(t fw.Tier) int { return pick(t, 2500, 40000) }, Run: func(c *fw.Case) { c14Ledger(c, false) }},
 			{Name: "builtin", Race: true, N: func(t fw.Tier) int { return pick(t, 40, 600) }, Run: c14Builtin, Batch: 8},
+			{Name: "failwait", N: func(t fw.Tier) int { return pick(t, 300, 6000) }, Run: c14FailWait},
 			{Name: "joinop", N: func(t fw.Tier) int { return pick(t, 300, 6000) }, Run: c14JoinOperand},
 			{Name: "immediate", N: func(t fw.Tier) int { return len(c14Immediates) * 3 }, Run: c14Immediate},
 			{Name: "race", Race: true, N: func(t fw.Tier) int { return pick(t, 300, 5000) }, Run: func(c *fw.Case) { c14Ledger(c, true) }},
@@ -934,4 +935,58 @@ func c14Builtin(c *fw.Case) {
 		}
 	}
 	c.Nontrivial(sql + fmt.Sprint(n, size, c.Idx))
+}
+
+
+// c14FailWait: a synchronous step fails on some row while background calls of
+// earlier rows are in flight. Exec reports the failure - and when it returns,
+// no ASYNC / SPINASYNC call it started is still running.
+func c14FailWait(c *fw.Case) {
+	t := gen.RandTable(c.R, gen.TableSpec{Name: "t1", MinRows: 2, MaxRows: 12, NumCols: 2, StrCols: 1, StrStyle: gen.Plain})
+	k := 1 + c.Intn(len(t.Rows))
+	sql := gen.Pick(c.R, []string{
+		"SELECT rid, ASYNC.VF(n1, rid, 1) AS a, SPINASYNC.VF(s1, rid, 2), VFAIL(rid) AS f FROM t1",
+		"SELECT rid, AWAIT(ASYNC.VF(n1, rid, 1)) AS a, ASYNC.VF(n2, rid, 2) AS b, VFAIL(rid) AS f FROM t1",
+		"SELECT rid, SPINASYNC.VF(n1, rid, 1), VFAIL(rid) AS f FROM t1 WHERE n1 >= n1",
+		"WITH c1 AS (SELECT rid, ASYNC.VF(n1, rid, 1) AS a, VFAIL(rid) AS f FROM t1) SELECT * FROM c1",
+	})
+	profile := c14Profiles[1+c.Idx%(len(c14Profiles)-1)]
+	c14Plan(c, profile, []int32{1, 2}, 64)
+	ledgerReset()
+	armFault(k, faultError)
+	o := Run(DocOf(t), sql)
+	ret := ledgerAppend(evRet, -1, -1)
+	armFault(0, faultNone)
+	// let everything that was started finish, then read the whole ledger
+	for i := 0; i < 20000 && vfEntered.Load() != vfExited.Load(); i++ {
+		sleepMs(1)
+	}
+	snap := ledgerSnapshot()
+	c.Evals(1)
+	c.Feature("failwait", "lat."+profile)
+	c.Sample(map[string]any{"sql": sql, "rows": len(t.Rows), "fault_at": k, "latency_profile": profile})
+	det := map[string]any{"sql": sql, "doc": DocOf(t), "fault_at_invocation": k, "latency_profile": profile, "observed": o.Describe()}
+	if o.Err == nil {
+		c.Discard("the planned fault did not fail the query")
+		return
+	}
+	started, lateEnds, lateStarts := 0, 0, 0
+	for _, e := range snap {
+		switch {
+		case e.kind == evStart && e.seq < ret:
+			started++
+		case e.kind == evStart:
+			lateStarts++
+		case e.kind == evEnd && e.seq > ret:
+			lateEnds++
+		}
+	}
+	if lateEnds > 0 || lateStarts > 0 {
+		det["ledger"] = fmt.Sprintf("%d calls started before Exec returned its error; %d call-ends and %d call-starts are recorded after the return", started, lateEnds, lateStarts)
+		c.Violate("invocation", fmt.Sprintf("Exec returned its error while %d background call(s) it had started were still running", lateEnds+lateStarts), det)
+		return
+	}
+	if started >= 1 {
+		c.Nontrivial(sql + fmt.Sprint(k) + val.Canon(t.Array()))
+	}
 }
